@@ -185,6 +185,60 @@ def native_differential(cfg, extra=()):
     native.close()
     return diffs
 
+def division_axis_part(chk):
+    """the division axis (cell::get_cell_longest_axis, used by the real divide_cell, which the whole-iteration runs replace by its contract):
+    the matrix handed to the 3x3 eigen-solver must not mention the translation"""
+    import math
+    from checks import meshes as M
+    from irsym.interp import K_DOUBLE
+    EIG = '_ZNK5mat3319eigen_decompositionEv'
+    ir = build.build_ir(['h_cell.cpp'])
+    nat = build.build_native(['h_cell.cpp'])
+    native = api.Native(nat)
+    T = [S.var(v) for v in TVARS]
+    for name in ('T5', 'T6'):
+        m = M.CATALOGUE[name]
+        base = [[p[0] * 1.0 + 0.0371 * i, p[1] * 1.7 - 0.0213 * i, p[2] * 0.8 + 0.0127 * i * i] for i, p in enumerate(m['pts'])]
+        mats = []
+        def eig_stub(it, a, mats=mats):
+            mats.append([it.load(a[1] + 8 * k, 8, K_DOUBLE) for k in range(9)])
+            vals = (3.0, 2.0, 1.0)
+            for k in range(3): it.store(a[0] + 8 * k, 8, vals[k])
+            ident = (1.0, 0.0, 0.0, 0.0, 1.0, 0.0, 0.0, 0.0, 1.0)
+            for k in range(9): it.store(a[0] + 24 + 8 * k, 8, ident[k])
+            return None
+        def setup(it): it.poly_mode = True; it.poly_residue = Fraction(1, 10 ** 12)
+        sess = api.Session(ir, mode='real', overrides={EIG: eig_stub}, setup=setup)
+        din = [S.add(S.const(Fraction(c)), T[k]) for p in base for k, c in enumerate(p)]
+        z = SV.Z3Ctx()
+        box = [S.band(S.cmp('ge', v, S.const(-100)), S.cmp('le', v, S.const(100))) for v in T]
+        ctl, res = sess.explore('h_c12_axis', din, M.iin_of(m), assumptions=box, zctx=z, max_paths=8, branch_timeout_ms=5000)
+        chk.paths += ctl.paths_done; chk.functions |= sess.functions_called
+        real = [(tr, pc, r) for (tr, pc, r) in res if getattr(r, 'status', None) != 'pathend']
+        tag = 'division axis/%s (stretched, generic offsets)' % name
+        single = len(real) == 1 and ctl.exhausted and real[0][2].status == 'ok'
+        tfree = bool(mats) and all(type(x) is float for x in mats[-1])
+        chk.ob(tag + '/get_cell_longest_axis: single path, the matrix handed to the eigen-solver does not mention the translation', 'proved' if (single and tfree) else 'violated', True, 0,
+               None if (single and tfree) else {'paths': len(real), 'entries': [S.show(x, 3) if isinstance(x, S.Node) else x for x in (mats[-1] if mats else [])][:9]})
+        if not (single and tfree):
+            # native differential of the axis itself
+            q0 = native.call('h_c12_axis', [c for p in base for c in p], M.iin_of(m))
+            diff = None
+            for t in [(0.0, 0.7, 0.0), (35.3, -71.9, 12.1), (-3.7, 0.41, 12.9), (5.5, 5.5, 5.5), (-250.0, 130.0, 77.0)]:
+                q = native.call('h_c12_axis', [c + t[k] for p in base for k, c in enumerate(p)], M.iin_of(m))
+                if q.get('status') != 0 or q0.get('status') != 0: continue
+                a0 = q0['d'][0:3]; a1 = q['d'][0:3]
+                dot = abs(sum(x * y for x, y in zip(a0, a1)))
+                if dot < 1 - 1e-6:
+                    diff = 'native longest axis %r at t=0 and %r at t=%r (%.2f degrees apart)' % ([round(x, 6) for x in a0], [round(x, 6) for x in a1], t, math.degrees(math.acos(min(1.0, dot)))); break
+            rep = {'mesh': name, 'coordinates': base, 'matrix entries': [S.show(x, 3) if isinstance(x, S.Node) else x for x in (mats[-1] if mats else [])], 'native': diff,
+                   'how': 'harness h_c12_axis (/verif/harness/h_cell.cpp): cell::get_cell_longest_axis on the mesh translated by t'}
+            if diff:
+                chk.violation('C14/division axis depends on the absolute position', '%s: %s' % (tag, diff), rep)
+            else:
+                chk.fail_closed.append(tag + ': translation-dependent matrix reported symbolically, native axes agree at the probe translations')
+    native.close()
+
 def main(chk):
     quick = chk.tier == 'quick'
     nsteps = 3 if quick else 8
@@ -236,6 +290,7 @@ def main(chk):
                     chk.violation('C14/%s/contact model %d' % (what, cfg[0]), '%s [%s]; native: %s at t=%r' % (what, o['name'], diffs[0]['what'], diffs[0]['t']), rep)
                 else:
                     chk.fail_closed.append('%s: "%s" reported symbolically but native runs at the probe translations agree with the untranslated run: undecided' % (o['name'], what))
+    division_axis_part(chk)
     if not any(o['obs'] for o in outs): chk.fail_closed.append('no configuration produced obligations')
     chk.witnesses = sum(1 for o in outs if o['obs'] and o['paths'] >= 1)
     chk.finish(level='other', explanation=(
